@@ -109,6 +109,7 @@ type Exec struct {
 	res         *PathResult
 	forks       [][]Dec // sibling prefixes discovered on this path
 	ndMemo      map[*Term]int64
+	digOrigin   map[*Term]digOrigin
 	inlMemo     map[string]*Term
 	refLo       map[*Term]*big.Int
 	refHi       map[*Term]*big.Int
@@ -137,6 +138,10 @@ type Exec struct {
 }
 
 func (ex *Exec) stop(reason, msg string) {
+	if reason == "cut_float" && ex.Opt.Params["strictFloat"] == "1" {
+		// a float harness must decide every path: float code without a model is an unwinding failure
+		reason, msg = "unwind", "float code without a model: "+msg
+	}
 	if reason != "error" && len(ex.pending) > 0 && !ex.flushing {
 		ex.flushing = true
 		func() {
